@@ -4,6 +4,7 @@ import (
 	"context"
 	"encoding/base64"
 	"encoding/json"
+	"errors"
 	"fmt"
 	"net/http"
 	"reflect"
@@ -52,6 +53,9 @@ func UnmarshalCursor[Options any](v string, modifiers ...func(query *InitialPagi
 
 	if err := json.Unmarshal(res, &q); err != nil {
 		return nil, err
+	}
+	if q == nil { // a JSON null resets the interface
+		return nil, errors.New("invalid cursor: null")
 	}
 
 	var root *InitialPaginatedQuery[Options]
